@@ -11,13 +11,21 @@
 (*               client's pong arrives, the client switches when it sees the ping                       *)
 (*   framing     each packet body is encrypted with the negotiated multiples                             *)
 (*               (swap_multiples, interleave, flip_msb) and decrypted with the inverses in reverse        *)
+(*   frames      every packet after the init exchange travels as EoFrame!Frame (EO-short length prefix,    *)
+(*               action, family, sequence number as char or short, body), client->server frames are      *)
+(*               encrypted with MULTS[1], server->client frames (no sequence number) with MULTS[2]         *)
+(*   account     a sequenced ACCOUNT_REQUEST makes the server draw an ACCOUNT_REPLY start; the client waits  *)
+(*               for the reply (it still answers pings); a server that has a ping outstanding postpones the   *)
+(*               reply until the pong, otherwise the two new starts would be applied in different orders      *)
+(*               at the two ends (TLC finds that race in seconds when the guard is removed)                   *)
 (* Channels are FIFO (TCP).  Checked: the hash is accepted by a genuine client, every wire component fits  *)
 (* its field, the two sequencers never disagree, decryption returns the plaintext.                       *)
 EXTENDS Integers, Sequences, TLC
-CONSTANTS CHALLENGES, INITS, PINGS, MAXSENT, MAXPINGS, BODIES, MULTS
+CONSTANTS CHALLENGES, INITS, PINGS, ACCTS, MAXSENT, MAXSSENT, MAXPINGS, MAXACCTS, BODIES, MULTS, POSTPONE
 \* INITS / PINGS: sets of <<seq1, seq2>> the server may draw; BODIES: plaintext bodies; MULTS: <<server-recv multiple, client-recv multiple>>
 SV == INSTANCE ServerVerify
 EN == INSTANCE Encrypt
+F  == INSTANCE EoFrame
 SS == INSTANCE SequenceStart WITH phase <- "x", kind <- "x", ndraws <- 0, value <- 0, seq1 <- 0, seq2 <- 0
 
 VARIABLES cstate,      \* client: "new" | "waiting" | "ready" | "rejected"
@@ -25,59 +33,101 @@ VARIABLES cstate,      \* client: "new" | "waiting" | "ready" | "rejected"
           cstart, ccounter,           \* client's sequencer (Sequencer.tla's start value and counter)
           sstart, scounter, spending, \* server's sequencer and the start announced by a ping but not yet in force (-1: none)
           c2s, s2c,                   \* FIFO channels
-          sent, pings, lastOk
-vars == <<cstate, challenge, cstart, ccounter, sstart, scounter, spending, c2s, s2c, sent, pings, lastOk>>
+          sent, pings, lastOk,
+          owed,                       \* the server has consumed an ACCOUNT_REQUEST and not yet replied
+          ssent, accts
+vars == <<cstate, challenge, cstart, ccounter, sstart, scounter, spending, c2s, s2c, sent, pings, lastOk, owed, ssent, accts>>
+\* (action, family) bytes of the packet kinds used here
+DATA == <<4, 21>>  PONG == <<6, 3>>  PING == <<15, 3>>  ACCTREQ == <<1, 5>>  ACCTREPLY == <<3, 5>>  SDATA == <<10, 18>>
 
-Encrypt(body, m) == EN!FlipMsb(EN!Interleave(EN!SwapMultiples(body, m).data))
-Decrypt(wire, m) == EN!SwapMultiples(EN!Deinterleave(EN!FlipMsb(wire)), m).data
 
 Init == /\ cstate = "new" /\ challenge = -1 /\ cstart = -1 /\ ccounter = 0
         /\ sstart = -1 /\ scounter = 0 /\ spending = -1
         /\ c2s = <<>> /\ s2c = <<>> /\ sent = 0 /\ pings = 0 /\ lastOk = TRUE
+        /\ owed = FALSE /\ ssent = 0 /\ accts = 0
 
 ClientHello == /\ cstate = "new" /\ \E c \in CHALLENGES : challenge' = c /\ c2s' = Append(c2s, [t |-> "init", challenge |-> c])
-               /\ cstate' = "waiting" /\ UNCHANGED <<cstart, ccounter, sstart, scounter, spending, s2c, sent, pings, lastOk>>
+               /\ cstate' = "waiting" /\ UNCHANGED <<cstart, ccounter, sstart, scounter, spending, s2c, sent, pings, lastOk, owed, ssent, accts>>
 ServerHello == /\ c2s # <<>> /\ Head(c2s).t = "init"
                /\ \E p \in INITS :
                     LET v == SS!Reconstruct("init", 0, p[1], p[2])
                     IN  /\ SS!ResultOK("init", v, p[1], p[2])                 \* only starts the library may generate
                         /\ sstart' = v /\ scounter' = 0
                         /\ s2c' = Append(s2c, [t |-> "init_reply", hash |-> SV!Hash(Head(c2s).challenge), seq1 |-> p[1], seq2 |-> p[2]])
-               /\ c2s' = Tail(c2s) /\ UNCHANGED <<cstate, challenge, cstart, ccounter, spending, sent, pings, lastOk>>
+               /\ c2s' = Tail(c2s) /\ UNCHANGED <<cstate, challenge, cstart, ccounter, spending, sent, pings, lastOk, owed, ssent, accts>>
 ClientInitReply == /\ s2c # <<>> /\ Head(s2c).t = "init_reply" /\ cstate = "waiting"
                    /\ IF Head(s2c).hash = SV!Hash(challenge)
                       THEN cstate' = "ready" /\ cstart' = SS!Reconstruct("init", 0, Head(s2c).seq1, Head(s2c).seq2) /\ ccounter' = 0
                       ELSE cstate' = "rejected" /\ UNCHANGED <<cstart, ccounter>>
-                   /\ s2c' = Tail(s2c) /\ UNCHANGED <<challenge, sstart, scounter, spending, c2s, sent, pings, lastOk>>
-\* Sequencer!NextSequence on the client, packet body encrypted for the server
+                   /\ s2c' = Tail(s2c) /\ UNCHANGED <<challenge, sstart, scounter, spending, c2s, sent, pings, lastOk, owed, ssent, accts>>
+\* Sequencer!NextSequence on the client, the packet framed and encrypted for the server
 ClientSend == /\ cstate = "ready" /\ sent < MAXSENT
-              /\ \E b \in BODIES : c2s' = Append(c2s, [t |-> "data", seq |-> cstart + ccounter, wire |-> Encrypt(b, MULTS[1]), plain |-> b])
+              /\ \E b \in BODIES : c2s' = Append(c2s, [t |-> "data", seq |-> cstart + ccounter, plain |-> b,
+                                                        wire |-> F!Frame(DATA[1], DATA[2], cstart + ccounter, b, MULTS[1])])
               /\ ccounter' = (ccounter + 1) % 10 /\ sent' = sent + 1
-              /\ UNCHANGED <<cstate, challenge, cstart, sstart, scounter, spending, s2c, pings, lastOk>>
-\* the server numbers the packet itself (same history, own sequencer) and decrypts it
+              /\ UNCHANGED <<cstate, challenge, cstart, sstart, scounter, spending, s2c, pings, lastOk, owed, ssent, accts>>
+\* the server numbers the packet itself (same history, own sequencer); the number it expects tells it how wide the field is
+Received(msg, kind) == LET u == F!Unframe(msg.wire, sstart + scounter, MULTS[1])
+                       IN  u.seq = sstart + scounter /\ u.action = kind[1] /\ u.family = kind[2] /\ u.len = Len(msg.wire) - 2
 ServerRecv == /\ c2s # <<>> /\ Head(c2s).t = "data"
-              /\ lastOk' = (Head(c2s).seq = sstart + scounter /\ Decrypt(Head(c2s).wire, MULTS[1]) = Head(c2s).plain)
+              /\ lastOk' = (Received(Head(c2s), DATA) /\ F!Unframe(Head(c2s).wire, sstart + scounter, MULTS[1]).body = Head(c2s).plain)
               /\ scounter' = (scounter + 1) % 10 /\ c2s' = Tail(c2s)
-              /\ UNCHANGED <<cstate, challenge, cstart, ccounter, sstart, spending, s2c, sent, pings>>
+              /\ UNCHANGED <<cstate, challenge, cstart, ccounter, sstart, spending, s2c, sent, pings, owed, ssent, accts>>
+\* unsequenced traffic in the other direction, encrypted with the other multiple
+ServerSend == /\ sstart # -1 /\ ssent < MAXSSENT
+              /\ \E b \in BODIES : s2c' = Append(s2c, [t |-> "sdata", plain |-> b, wire |-> F!Frame(SDATA[1], SDATA[2], -1, b, MULTS[2])])
+              /\ ssent' = ssent + 1
+              /\ UNCHANGED <<cstate, challenge, cstart, ccounter, sstart, scounter, spending, c2s, sent, pings, lastOk, owed, accts>>
+ClientRecv == /\ s2c # <<>> /\ Head(s2c).t = "sdata" /\ cstate \in {"ready", "awaiting"}
+              /\ LET u == F!Unframe(Head(s2c).wire, -1, MULTS[2])
+                 IN  lastOk' = (u.body = Head(s2c).plain /\ u.action = SDATA[1] /\ u.family = SDATA[2])
+              /\ s2c' = Tail(s2c)
+              /\ UNCHANGED <<cstate, challenge, cstart, ccounter, sstart, scounter, spending, c2s, sent, pings, owed, ssent, accts>>
 ServerPing == /\ sstart # -1 /\ spending = -1 /\ pings < MAXPINGS
               /\ \E p \in PINGS :
                     LET v == SS!Reconstruct("ping", 0, p[1], p[2])
                     IN  /\ SS!ResultOK("ping", v, p[1], p[2])
                         /\ spending' = v /\ s2c' = Append(s2c, [t |-> "ping", seq1 |-> p[1], seq2 |-> p[2]])
-              /\ pings' = pings + 1 /\ UNCHANGED <<cstate, challenge, cstart, ccounter, sstart, scounter, c2s, sent, lastOk>>
+              /\ pings' = pings + 1 /\ UNCHANGED <<cstate, challenge, cstart, ccounter, sstart, scounter, c2s, sent, lastOk, owed, ssent, accts>>
 \* Sequencer!SetStart on the client (never touches the counter); the pong is itself a sequenced packet
-ClientPing == /\ s2c # <<>> /\ Head(s2c).t = "ping" /\ cstate = "ready"
+ClientPing == /\ s2c # <<>> /\ Head(s2c).t = "ping" /\ cstate \in {"ready", "awaiting"}
               /\ cstart' = SS!Reconstruct("ping", 0, Head(s2c).seq1, Head(s2c).seq2)
-              /\ c2s' = Append(c2s, [t |-> "pong", seq |-> cstart' + ccounter])
+              /\ c2s' = Append(c2s, [t |-> "pong", seq |-> cstart' + ccounter, wire |-> F!Frame(PONG[1], PONG[2], cstart' + ccounter, <<>>, MULTS[1])])
               /\ ccounter' = (ccounter + 1) % 10 /\ s2c' = Tail(s2c)
-              /\ UNCHANGED <<cstate, challenge, sstart, scounter, spending, sent, pings, lastOk>>
+              /\ UNCHANGED <<cstate, challenge, sstart, scounter, spending, sent, pings, lastOk, owed, ssent, accts>>
 \* the pong is the first packet numbered with the new start: the server switches, then checks it
 ServerPong == /\ c2s # <<>> /\ Head(c2s).t = "pong"
               /\ sstart' = spending /\ spending' = -1
-              /\ lastOk' = (Head(c2s).seq = spending + scounter)
+              /\ LET u == F!Unframe(Head(c2s).wire, spending + scounter, MULTS[1])
+                 IN  lastOk' = (u.seq = spending + scounter /\ u.action = PONG[1] /\ u.family = PONG[2] /\ u.body = <<>>)
               /\ scounter' = (scounter + 1) % 10 /\ c2s' = Tail(c2s)
-              /\ UNCHANGED <<cstate, challenge, cstart, ccounter, s2c, sent, pings>>
-Next == ClientHello \/ ServerHello \/ ClientInitReply \/ ClientSend \/ ServerRecv \/ ServerPing \/ ClientPing \/ ServerPong
+              /\ UNCHANGED <<cstate, challenge, cstart, ccounter, s2c, sent, pings, owed, ssent, accts>>
+\* ACCOUNT_REQUEST: a sequenced packet after which the client waits for the reply
+ClientAcctRequest == /\ cstate = "ready" /\ accts < MAXACCTS
+                     /\ c2s' = Append(c2s, [t |-> "acct_req", seq |-> cstart + ccounter,
+                                            wire |-> F!Frame(ACCTREQ[1], ACCTREQ[2], cstart + ccounter, <<>>, MULTS[1])])
+                     /\ ccounter' = (ccounter + 1) % 10 /\ accts' = accts + 1 /\ cstate' = "awaiting"
+                     /\ UNCHANGED <<challenge, cstart, sstart, scounter, spending, s2c, sent, pings, lastOk, owed, ssent>>
+ServerAcctRecv == /\ c2s # <<>> /\ Head(c2s).t = "acct_req"
+                  /\ lastOk' = Received(Head(c2s), ACCTREQ)
+                  /\ scounter' = (scounter + 1) % 10 /\ c2s' = Tail(c2s) /\ owed' = TRUE
+                  /\ UNCHANGED <<cstate, challenge, cstart, ccounter, sstart, spending, s2c, sent, pings, ssent, accts>>
+\* the reply carries the new start as one char; it is postponed while a ping is outstanding (POSTPONE = FALSE shows the race)
+ServerAcctReply == /\ owed /\ (POSTPONE => spending = -1)
+                   /\ \E v \in ACCTS :
+                        /\ SS!ResultOK("account", v, 0, 0)
+                        /\ sstart' = v
+                        /\ s2c' = Append(s2c, [t |-> "acct_reply", value |-> v, wire |-> F!Frame(ACCTREPLY[1], ACCTREPLY[2], -1, F!Take(F!N!EncodeInt(v), 1), MULTS[2])])
+                   /\ owed' = FALSE
+                   /\ UNCHANGED <<cstate, challenge, cstart, ccounter, scounter, spending, c2s, sent, pings, lastOk, ssent, accts>>
+ClientAcctReply == /\ s2c # <<>> /\ Head(s2c).t = "acct_reply" /\ cstate = "awaiting"
+                   /\ LET u == F!Unframe(Head(s2c).wire, -1, MULTS[2])
+                      IN  /\ cstart' = F!N!DecodeInt(u.body)
+                          /\ lastOk' = (u.action = ACCTREPLY[1] /\ u.family = ACCTREPLY[2] /\ F!N!DecodeInt(u.body) = Head(s2c).value)
+                   /\ cstate' = "ready" /\ s2c' = Tail(s2c)
+                   /\ UNCHANGED <<challenge, ccounter, sstart, scounter, spending, c2s, sent, pings, owed, ssent, accts>>
+Next == \/ ClientHello \/ ServerHello \/ ClientInitReply \/ ClientSend \/ ServerRecv \/ ServerSend \/ ClientRecv
+        \/ ServerPing \/ ClientPing \/ ServerPong \/ ClientAcctRequest \/ ServerAcctRecv \/ ServerAcctReply \/ ClientAcctReply
 Spec == Init /\ [][Next]_vars
 
 \* ---- properties ----
@@ -87,5 +137,5 @@ HashFitsEoInt == \A i \in 1..Len(s2c) : s2c[i].t = "init_reply" => SV!FitsEoInt(
 ComponentsTransmittable ==
   \A i \in 1..Len(s2c) : /\ (s2c[i].t = "init_reply" => SS!Transmittable(s2c[i].seq1, 1) /\ SS!Transmittable(s2c[i].seq2, 1))
                           /\ (s2c[i].t = "ping" => SS!Transmittable(s2c[i].seq1, 2) /\ SS!Transmittable(s2c[i].seq2, 1))
-StartsAgreeWhenQuiet == (c2s = <<>> /\ s2c = <<>> /\ cstate = "ready") => (cstart = sstart /\ ccounter = scounter /\ spending = -1)
+StartsAgreeWhenQuiet == (c2s = <<>> /\ s2c = <<>> /\ cstate = "ready") => (cstart = sstart /\ ccounter = scounter /\ spending = -1 /\ ~owed)
 =============================================================================
